@@ -19,6 +19,16 @@ func VerifDir() string {
 	return "/verif"
 }
 
+// OutDir is where evidence and replays are written (VERIF_OUT_DIR redirects them when a
+// scratch copy of the library is being checked during development, so that the
+// committed evidence always comes from /repo itself).
+func OutDir() string {
+	if d := os.Getenv("VERIF_OUT_DIR"); d != "" {
+		return d
+	}
+	return VerifDir()
+}
+
 // KnownFinding identifies a recorded genuine defect by property, violated clause and
 // a scenario predicate, so that a different violation of the same property still alarms.
 type KnownFinding struct {
@@ -155,7 +165,7 @@ func Conclude(prop, mode string, res *RunResult, stepInfo []map[string]interface
 		}
 		violations += len(unknown)
 		r := unknown[0]
-		path := WriteReplay(VerifDir(), r)
+		path := WriteReplay(OutDir(), r)
 		fmt.Printf("VIOLATION property=%s replay=%s\n", prop, path)
 		fmt.Printf("  clause=%s (%d witnesses) %s\n  scenario: %s\n  choices=%v reverse=%v\n", r.Clause, len(unknown), r.Msg, scenarioString(r), r.Choices, r.Reverse)
 	}
@@ -178,27 +188,27 @@ func Conclude(prop, mode string, res *RunResult, stepInfo []map[string]interface
 		transitions = st.Execs
 	}
 	cov := map[string]interface{}{
-		"states":                        states,
-		"transitions":                   transitions,
-		"traces_validated_against_impl": st.Execs,
-		"evaluations":                   st.Execs,
-		"distinct_nontrivial":           st.Nontrivial,
-		"rule":                          rule + "; states = distinct (scenario, choice-sequence) executions; transitions = map-order choice points taken; non-trivial = scenario in which the property's premise held and user code ran or an error was judged",
-		"samples":                       samples,
-		"exhaustive":                    true,
-		"scenarios":                     st.Scenarios,
-		"scenarios_premise_held":        st.Premise,
-		"max_choice_points_per_exec":    st.MaxPoints,
+		"states":                         states,
+		"transitions":                    transitions,
+		"traces_validated_against_impl":  st.Execs,
+		"evaluations":                    st.Execs,
+		"distinct_nontrivial":            st.Nontrivial,
+		"rule":                           rule + "; states = distinct (scenario, choice-sequence) executions; transitions = map-order choice points taken; non-trivial = scenario in which the property's premise held and user code ran or an error was judged",
+		"samples":                        samples,
+		"exhaustive":                     true,
+		"scenarios":                      st.Scenarios,
+		"scenarios_premise_held":         st.Premise,
+		"max_choice_points_per_exec":     st.MaxPoints,
 		"distinct_outcomes_per_scenario": st.OutcomeHist,
-		"outcome_classes":               st.Classes,
-		"steps":                         stepInfo,
-		"sites_met":                     len(st.Sites),
-		"active_sites":                  keys(st.ActiveSites),
-		"maps_grown_during_range":       st.Grown,
-		"budget_high_water":             map[string]int{"steps": st.StepsSeen, "activations": st.ActiveSeen, "max_steps": maxSteps, "max_activations": maxActive},
-		"worker_crashes":                res.Crashes,
-		"construct_errors":              st.BuildErrs,
-		"findings_total":                len(res.Findings),
+		"outcome_classes":                st.Classes,
+		"steps":                          stepInfo,
+		"sites_met":                      len(st.Sites),
+		"active_sites":                   keys(st.ActiveSites),
+		"maps_grown_during_range":        st.Grown,
+		"budget_high_water":              map[string]int{"steps": st.StepsSeen, "activations": st.ActiveSeen, "max_steps": maxSteps, "max_activations": maxActive},
+		"worker_crashes":                 res.Crashes,
+		"construct_errors":               st.BuildErrs,
+		"findings_total":                 len(res.Findings),
 	}
 	ev := Evidence{PropertyID: prop, Tier: mode, Seed: seed, Level: "model_checking", Coverage: cov, WallS: time.Since(t0).Seconds(), Violations: violations,
 		Assumptions: []string{
@@ -206,7 +216,7 @@ func Conclude(prop, mode string, res *RunResult, stepInfo []map[string]interface
 			"map iteration orders are explored within the stated deviation bound of sorted order, with a reduced permutation family above 4 keys",
 			"labels/types outside the alphabet (carrier structs T0-T3, interface Iface, names a/b/c, subtypes x/y) are not covered",
 		}}
-	if err := WriteEvidence(filepath.Join(VerifDir(), "evidence"), ev); err != nil {
+	if err := WriteEvidence(filepath.Join(OutDir(), "evidence"), ev); err != nil {
 		fmt.Fprintln(os.Stderr, "cannot write evidence:", err)
 		return 2
 	}
